@@ -1,5 +1,20 @@
 import PgsVerif.Model.AstSem2
-import PgsVerif.Generated.Code
+import PgsVerif.Generated.Code_enumVal_Syntax
+import PgsVerif.Generated.Code_enum_Syntax
+import PgsVerif.Generated.Code_ext_Syntax
+import PgsVerif.Generated.Code_field_HasOptionalKeyword
+import PgsVerif.Generated.Code_field_HasPresence
+import PgsVerif.Generated.Code_field_InOneOf
+import PgsVerif.Generated.Code_field_InRealOneOf
+import PgsVerif.Generated.Code_field_Required
+import PgsVerif.Generated.Code_field_Syntax
+import PgsVerif.Generated.Code_file_Syntax
+import PgsVerif.Generated.Code_method_Syntax
+import PgsVerif.Generated.Code_msg_Syntax
+import PgsVerif.Generated.Code_oneof_IsSynthetic
+import PgsVerif.Generated.Code_oneof_Syntax
+import PgsVerif.Generated.Code_service_Syntax
+import PgsVerif.Generated.Code_syntax_SupportsRequiredPrefix
 /-!
 # Tie (translated code): presence, label and synthetic-oneof logic
 
